@@ -160,7 +160,15 @@ def patterns(k, asz, n, rng):
                 v = rng.randrange(-M, M + 1)
             col.append(max(-M, min(M, v)))
         cols.append(col)
-    return np.array(cols, dtype=np.int64).T.reshape(asz, n)
+    A = np.array(cols, dtype=np.int64).T.reshape(asz, n)
+    # whole limbs that are the zero polynomial or one constant (a limb-level shortcut must still pass the carries on)
+    for i in range(asz):
+        u = rng.random()
+        if u < 0.12:
+            A[i, :] = 0
+        elif u < 0.18:
+            A[i, :] = rng.choice([M, -M, half, -half - 1, half - 1, 1, -1])
+    return A
 
 
 def drive_b(rec, ks, quick):
@@ -210,7 +218,8 @@ def drive_b(rec, ks, quick):
             nbig = 4096 if (quick or k % 3) else 16384
             asz, rsz = rng.choice([(2, 2), (3, 2), (3, 3), (4, 2)])
             if volume:
-                nbig, asz = rng.choice([(65536, 18), (32768, 36), (16384, 70), (8192, 135), (4096, 270), (2048, 530)])
+                # (the validation of one recorded column grows faster than linearly in the number of limbs: 70 is where it stays cheap)
+                nbig, asz = rng.choice([(65536, 18), (32768, 36), (16384, 70)] if quick else [(65536, 18), (32768, 36), (16384, 70), (8192, 135)])
                 rsz = rng.choice([asz, asz - 1, asz // 2, 2])
             modsb, epsb = entry_points(L, nbig)
             A = patterns(k, asz, nbig, rng)
